@@ -277,6 +277,8 @@ def main(tier, replay_payload=None):
                 sig = "%s :: %s :: client=%s api=%s" % (r["label"], "+".join(cl), r["rA"], r["rB"])
                 run.fail(sig, dict(invocation=r["label"], failing=r["bad"], pre_state=r["vals"]),
                          dict(harness="c20", vals=r["vals"], clauses=cl))
+    from engine import battery
+    battery.validate(run)
     chs_roundtrip(run, tier)
     run.functions = loader.function_lines(loader.load("hashstoreclient.py"), [
         "main", "HashStoreParser.__init__", "HashStoreParser.load_store_properties", "HashStoreClient.__init__"]) + \
